@@ -207,8 +207,14 @@ type result struct {
 }
 
 func main() {
+	if vlib.IsChild() && len(os.Args) > 2 && os.Args[1] == "ixchild" {
+		ixChild() // initial-EXEC layer, driver path (initexec_drv.go)
+		return
+	}
 	// --replay <file>: re-execute exactly the (probe, pair) of a replay file
 	var rf replayFilter
+	var ixReplay *ixCase
+	ixReplayMode, ixReplayPath := "", ""
 	for i, a := range os.Args {
 		if a == "--replay" && i+1 < len(os.Args) {
 			b, err := os.ReadFile(os.Args[i+1])
@@ -227,11 +233,17 @@ func main() {
 						Phase string `json:"phase"`
 						Index int    `json:"index"`
 					} `json:"pair"`
+					Case *ixCase `json:"case"`
+					Mode string  `json:"mode"`
+					Path string  `json:"path"`
 				} `json:"witness"`
 			}
 			if err := json.Unmarshal(b, &rp); err != nil {
 				fmt.Println("cannot parse replay file:", err)
 				os.Exit(2)
+			}
+			if rp.Witness.Case != nil && rp.Witness.Case.IX {
+				ixReplay, ixReplayMode, ixReplayPath = rp.Witness.Case, rp.Witness.Mode, rp.Witness.Path
 			}
 			rf = replayFilter{true, rp.Witness.Probe.ID, rp.Witness.Pair.Phase, rp.Witness.Pair.Index}
 			os.Setenv("VERIF_SEED", fmt.Sprint(rp.Seed))
@@ -242,6 +254,44 @@ func main() {
 
 	log.SetOutput(io.Discard) // log.Panicf of the code under test prints before it panics
 	c := vlib.Start("C06")
+	if ixReplay != nil { // a case of the initial-EXEC layer
+		if strings.HasPrefix(ixReplayPath, "driver") {
+			runIxBatch(c, ixBatch{Timing: ixReplayMode == "timing", Cases: []*ixCase{ixReplay}})
+			ixCleanup()
+		} else {
+			runIxEmuDirect(c, ixReplay)
+		}
+		fmt.Printf("[C06] replay of initial-EXEC case %s (grid %v, work-group %v)\n", ixReplay.Name, ixReplay.Grid, ixReplay.WG)
+		if c.NumNewViolations() > 0 {
+			os.Exit(1)
+		}
+		fmt.Println("[C06] replay: not reproduced (or a listed known finding)")
+		os.Exit(0)
+	}
+	// ---- initial-EXEC layer (initexec.go): runs beside the ALU-level phases;
+	// its driver cases spend their time in child processes
+	var ixWG sync.WaitGroup
+	if !rf.on && os.Getenv("C06_NO_INITEXEC") == "" {
+		ixEmu := ixCasesEmu(c)
+		nCanon := len(canonicalIxCases())
+		// the canonical battery first, so that its witnesses are the recorded ones
+		vlib.Parallel(nCanon, 0, func(i int) { runIxEmuDirect(c, ixEmu[i]) })
+		batches := ixDriverBatches(c)
+		ixWG.Add(2)
+		go func() {
+			defer ixWG.Done()
+			vlib.Parallel(len(ixEmu)-nCanon, 4, func(i int) { runIxEmuDirect(c, ixEmu[nCanon+i]) })
+		}()
+		go func() {
+			defer ixWG.Done()
+			vlib.Parallel(len(batches), 6, func(i int) { runIxBatch(c, batches[i]) })
+			ixCleanup()
+		}()
+	}
+	if os.Getenv("C06_ONLY_INITEXEC") != "" { // development aid
+		ixWG.Wait()
+		c.Finish(vlib.FinishOpts{Rule: "initial-EXEC layer alone (development aid)", MinCounters: ixMinCounters()})
+	}
 	if pf := os.Getenv("C06_CPUPROFILE"); pf != "" {
 		f, _ := os.Create(pf)
 		pprof.StartCPUProfile(f)
@@ -515,26 +565,35 @@ func main() {
 		os.Exit(0)
 	}
 	pprof.StopCPUProfile()
+	ixWG.Wait()
+	lap("initial-EXEC layer")
+	minCounters := map[string]int64{
+		"vector_executions": 100000, "memory_accesses_attributed_to_a_lane": 20000, "inactive_lanes_checked": 1000000,
+		"lds_regions_of_inactive_lanes_checked": 10000, "scalar_exec_pairs": 5000, "distinct_exec_masks": 500, "distinct_permutations": 500,
+		"vector_opcodes_exercised_gcn3_VOP1": 20, "vector_opcodes_exercised_gcn3_VOP2": 28, "vector_opcodes_exercised_gcn3_VOPC": 28,
+		"vector_opcodes_exercised_gcn3_VOP3a": 38, "vector_opcodes_exercised_gcn3_VOP3b": 6, "vector_opcodes_exercised_gcn3_DS": 7, "vector_opcodes_exercised_gcn3_FLAT": 9,
+		"vector_opcodes_exercised_cdna3_VOP1": 22, "vector_opcodes_exercised_cdna3_VOP2": 30, "vector_opcodes_exercised_cdna3_VOPC": 24,
+		"vector_opcodes_exercised_cdna3_VOP3a": 48, "vector_opcodes_exercised_cdna3_VOP3b": 6, "vector_opcodes_exercised_cdna3_DS": 7, "vector_opcodes_exercised_cdna3_FLAT": 9,
+		"scalar_opcodes_exercised": 100,
+	}
+	if os.Getenv("C06_NO_INITEXEC") == "" {
+		for k, v := range ixMinCounters() {
+			minCounters[k] = v
+		}
+	}
 	c.Finish(vlib.FinishOpts{
 		Rule: "case = one execution of one decoded encoding of an implemented vector opcode on the real ALU under one (EXEC mask, lane permutation) pair " +
 			"(4 executions per pair: base, permuted, EXEC subset, other lanes scrambled); distinct_nontrivial = distinct (arch, format, opcode) " +
-			"exercised with at least one partial mask (neither 0 nor all ones) and at least one non-identity permutation",
+			"exercised with at least one partial mask (neither 0 nor all ones) and at least one non-identity permutation. " + ixRule,
 		Assumptions: []string{
 			"state handed to the ALU = real emu.Wavefront wrapped only to supply Inst()/PID() (the compute unit sets these through unexported fields)",
 			"encodings come from vlib/gcnasm and pass through the real insts.Disassembler (IsCDNA3 set for the cdna3 ALU as the emulation GPU builder does)",
 			"inactive lanes of a compare / carry-out read 0 in the written mask (GCN3 ISA 3.9 'VCC is always fully written'); other lane masks must not change for inactive lanes",
 			"LDS reads cannot be observed directly (the ALU indexes a byte slice): reads from another lane's LDS region are caught through equivariance and the scramble relation, writes through the region / canary comparison",
 			"implemented = at least one encoding of the opcode number runs to completion under one of five fixed EXEC masks; a handler that panics on all of them is listed, not judged",
+			ixAssumption1, ixAssumption2,
 		},
 		MinNontrivial: 250,
-		MinCounters: map[string]int64{
-			"vector_executions": 100000, "memory_accesses_attributed_to_a_lane": 20000, "inactive_lanes_checked": 1000000,
-			"lds_regions_of_inactive_lanes_checked": 10000, "scalar_exec_pairs": 5000, "distinct_exec_masks": 500, "distinct_permutations": 500,
-			"vector_opcodes_exercised_gcn3_VOP1": 20, "vector_opcodes_exercised_gcn3_VOP2": 28, "vector_opcodes_exercised_gcn3_VOPC": 28,
-			"vector_opcodes_exercised_gcn3_VOP3a": 38, "vector_opcodes_exercised_gcn3_VOP3b": 6, "vector_opcodes_exercised_gcn3_DS": 7, "vector_opcodes_exercised_gcn3_FLAT": 9,
-			"vector_opcodes_exercised_cdna3_VOP1": 22, "vector_opcodes_exercised_cdna3_VOP2": 30, "vector_opcodes_exercised_cdna3_VOPC": 24,
-			"vector_opcodes_exercised_cdna3_VOP3a": 48, "vector_opcodes_exercised_cdna3_VOP3b": 6, "vector_opcodes_exercised_cdna3_DS": 7, "vector_opcodes_exercised_cdna3_FLAT": 9,
-			"scalar_opcodes_exercised": 100,
-		},
+		MinCounters:   minCounters,
 	})
 }
